@@ -11,13 +11,16 @@ CHEAP = ["RandomUniform", "Halton", "RSequence", "BestBatch", "ParticleSwarm"]
 
 
 # --------------------------------------------------------------------------- search spaces
-def gen_space(rng, dims=None, max_points=400, aligned_only=False):
+def gen_space(rng, dims=None, max_points=400, aligned_only=False, fine=False):
     """Return descriptor {"bounds": [[lo...],[up...]], "precision": [...], "styles": [...]}."""
     d = int(rng.integers(1, 7)) if dims is None else dims
     lo, up, pr, styles = [], [], [], []
     for _ in range(d):
         style = "dyadic" if aligned_only else str(rng.choice(["dyadic", "decimal", "nondividing", "offset", "tiny", "huge"]))
         npts = int(rng.choice([1, 2, 3, 5, 10, 37, 100, int(rng.integers(2, max_points))]))
+        if fine:  # many cells per axis: small changes of a raw proposal survive the snap
+            npts = int(rng.integers(500, 4000))
+            style = str(rng.choice(["dyadic", "decimal", "nondividing"]))
         if style == "dyadic":
             p = 2.0 ** int(rng.integers(-6, 4))
             l0 = p * int(rng.integers(-50, 50))
